@@ -35,11 +35,12 @@ Definition too_big_obj (lim : N) (c : ccall) (r : N) : bool := flag c 4 && negb 
 Definition csys := sys N arg N.
 Definition cstep (lim : N) : csys -> action arg -> csys := step apply_obj (too_big_obj lim).
 
+(** methods 6 and 7 exist only in the client's (later) version of the interface *)
 Definition kind_of_meth (m : N) : kind :=
-  match m with 0 | 1 => KRef | 2 | 3 => KMut | _ => KVal end.
+  match m with 0 | 1 | 6 => KRef | 2 | 3 | 7 => KMut | _ => KVal end.
 
 Definition mk_call (rfn : bool) (m x fl : N) : ccall :=
-  mkCall (kind_of_meth m) m (x, fl) (rfn || N.odd m) (N.testbit fl 2) (N.testbit fl 5).
+  mkCall (kind_of_meth m) m (x, fl) (rfn || N.odd m) (N.testbit fl 2 || (5 <? m)) (N.testbit fl 5).
 
 (** ** the internal schedule of a big step *)
 Record rstate := mkR {
@@ -174,7 +175,7 @@ Definition method_ok (flav m : N) : bool :=
   match flav with
   | 0 => m <=? 5
   | 1 | 3 => m <=? 1
-  | 2 | 4 | 5 => m <=? 3
+  | 2 | 4 | 5 => (m <=? 3) || (m =? 6) || (m =? 7)
   | _ => true
   end.
 
